@@ -144,6 +144,16 @@ Theorem C08_session_failed_init_then_warm_rejected :
 Proof. exact sess_failed_init_then_warm. Qed.
 Print Assumptions C08_session_failed_init_then_warm_rejected.
 
+(* a warm start whose request resolves to FEWER items than are already selected is rejected and
+   leaves the object as it was *)
+Theorem C08_session_shrinking_warm_rejected :
+  forall cand ycand g c r str k,
+    c_full c && has_thr (c_thr c) = false -> resolve_n (length cand) (c_nts c) = Some k ->
+    Select.c_warm c = true -> (k < length (sel g))%nat ->
+    sess_fit cand ycand (Some g) c r str = (Some g, RPre).
+Proof. exact sess_shrinking_warm_rejected. Qed.
+Print Assumptions C08_session_shrinking_warm_rejected.
+
 (* a cold fit does not see the history of the object (what it returns, and the state it leaves
    unless it is rejected before touching the object) *)
 Theorem C08_session_cold_fit_history_free :
